@@ -397,6 +397,9 @@ def make_enum(I, cls, v):
     t = int_term(v)
     if not enum_is_int(cls):
         raise Unsupported("symbolic construction of non-int enum")
+    # the value model of enums (Cls(v) keeps v) is checked against the live class by the runner for every class
+    # constructed from a symbolic value on some path (obligation enum.construction_keeps_the_value)
+    I.ctx.assumptions_used.add(f"enum:{cls.__module__}:{cls.__qualname__}")
     defined = _or([t == enum_to_int(m) for m in enum_members(cls)])
     if enum_accepts_undefined(cls):
         rng = enum_range(cls)
